@@ -2127,3 +2127,64 @@ Example exA_rename_cmd_old_hyps :
   mem_str s_zz TI.sizing_prefixes = false /\
   TI.first_ok (flat_list (rename_docs s_zz exA_cmd_path exA_doc)) = true.
 Proof. repeat split; vm_compute; reflexivity. Qed.
+
+(* ---------------------------------- the lexical conditions are forced *)
+
+Definition s_langle : str := [108;97;110;103;108;101]%N.
+Definition s_left : str := [108;101;102;116]%N.
+
+(* \left\lang, lang -> langle: Stage 1 holds (the edited TOKENS parse to the
+   edited tree) but the new TEXT \left\langle is tokenized as the single
+   sizing command "left\langle": a CommandName token of the context (left) is
+   a sizing prefix *)
+Definition badL_src : str := [92;108;101;102;116;92;108;97;110;103]%N.
+Definition badL_doc : list doc :=
+  let t i := nth i (fst (tokens_of_string badL_src)) tok0 in
+  [ DCmd (t 0%nat) (t 1%nat) []; DCmd (t 2%nat) (t 3%nat) [] ].
+
+Theorem rename_sizing_context_refuted :
+  exists ds p x s t' t'',
+    tokens_of_string badL_src = (flat_list ds, TEnd) /\
+    wf_seq (all_skip []) false CTop ds [] = true /\
+    dn_get (Nr ds) p = Some (Nd x) /\ rename_ok (all_skip []) s x = true /\
+    forallb printable ds = true /\ lex_ok (flat_list ds) = true /\
+    mem_str s TI.sizing_prefixes = false /\
+    set_name (ERoot (map tree ds)) p s = Done t' /\
+    parse_tokens (flat_list (rename_docs s p ds)) true [] = Ok t' /\
+    parse (estr t') true [] = Ok t'' /\ ~ FixedPoint.expr_pos_sim t' t''.
+Proof.
+  exists badL_doc, [SBody 1%nat]. eexists. exists s_langle. do 2 eexists.
+  split; [vm_compute; reflexivity|]. split; [vm_compute; reflexivity|].
+  split; [vm_compute; reflexivity|]. split; [vm_compute; reflexivity|].
+  split; [vm_compute; reflexivity|]. split; [vm_compute; reflexivity|].
+  split; [vm_compute; reflexivity|]. split; [vm_compute; reflexivity|].
+  split; [vm_compute; reflexivity|]. split; [vm_compute; reflexivity|].
+  apply FixedPoint.not_sim. vm_compute. discriminate.
+Qed.
+
+(* \a(x), a -> left: the new name is a sizing prefix; \left(x) is tokenized
+   as the sizing command "left(" *)
+Definition badK_src : str := [92;97;40;120;41]%N.
+Definition badK_doc : list doc :=
+  let t i := nth i (fst (tokens_of_string badK_src)) tok0 in
+  [ DCmd (t 0%nat) (t 1%nat) []; DLeaf (t 2%nat) ].
+
+Theorem rename_to_sizing_prefix_refuted :
+  exists ds p x s t' t'',
+    tokens_of_string badK_src = (flat_list ds, TEnd) /\
+    wf_seq (all_skip []) false CTop ds [] = true /\
+    dn_get (Nr ds) p = Some (Nd x) /\ rename_ok (all_skip []) s x = true /\
+    forallb printable ds = true /\ lex_ok (flat_list ds) = true /\
+    forallb nosize (flat_list ds) = true /\
+    set_name (ERoot (map tree ds)) p s = Done t' /\
+    parse_tokens (flat_list (rename_docs s p ds)) true [] = Ok t' /\
+    parse (estr t') true [] = Ok t'' /\ ~ FixedPoint.expr_pos_sim t' t''.
+Proof.
+  exists badK_doc, [SBody 0%nat]. eexists. exists s_left. do 2 eexists.
+  split; [vm_compute; reflexivity|]. split; [vm_compute; reflexivity|].
+  split; [vm_compute; reflexivity|]. split; [vm_compute; reflexivity|].
+  split; [vm_compute; reflexivity|]. split; [vm_compute; reflexivity|].
+  split; [vm_compute; reflexivity|]. split; [vm_compute; reflexivity|].
+  split; [vm_compute; reflexivity|]. split; [vm_compute; reflexivity|].
+  apply FixedPoint.not_sim. vm_compute. discriminate.
+Qed.
